@@ -162,3 +162,127 @@ fn c01_recv_any_reassembly() {
     std::mem::forget(f);
 }
 }
+
+// ---------------------------------------------------------------------------
+// One-step formulation: one frame arrives while the receiver is in a given assembly state.
+
+static OLD: [u8; 2] = [0xAA, 0xBB];
+static NEW: [u8; 3] = [0x11, 0x22, 0x33];
+
+/// `pre`: 0 = nothing buffered, 1 = a message partially buffered (one 2-byte chunk).
+/// The frame carries `len` (0..=3) bytes of `NEW`; `max` is the receiver's max_data_size.
+/// All of these are concrete per harness (they decide which `Bytes`/`VecDeque` operations run);
+/// the credit numbers are symbolic.
+fn recv_any_step_case(pre: u8, first: bool, last: bool, len: usize, max: usize) {
+    let credit: u32 = kani::any();
+    let used0: u32 = kani::any();
+    let limit: u32 = kani::any();
+    kani::assume(limit >= 4 && credit >= 1 && credit <= used0 && used0 <= limit);
+    let (evt_tx, evt_rx) = tokio::sync::mpsc::channel(4);
+    let (data_tx, data_rx) = tokio::sync::mpsc::unbounded_channel();
+    let (mon, returner) = hc::monitor_pair(limit);
+    hc::monitor_set_used(&mon, used0);
+    let rx = hr::receiver_new(P, R, max, 4, evt_tx, data_rx, returner, hp::allocator_new(8), hst::storage_new());
+    let mut f = RxFix { rx, data_tx, evt_rx, mon };
+    if pre == 1 {
+        let mut chunks = Vec::with_capacity(4);
+        chunks.push(Bytes::from_static(&OLD));
+        hr::receiver_set_receiving_data(&mut f.rx, chunks);
+    }
+    let old_len = if pre == 1 { 2 } else { 0 };
+    assert!(f.data_tx.send(hr::recv_msg_data(Bytes::from_static(&NEW).slice(0..len), first, last, credit)).is_ok());
+
+    let res = {
+        // the future is leaked by `Slot` (never dropped), its borrow of the receiver ends here
+        let mut slot = Slot::new(f.rx.recv_any());
+        slot.poll()
+    };
+
+    // reference semantics of framing: `first` discards what was buffered; a frame without a started
+    // message is ignored; `last` completes; a message larger than max_data_size is handed over for chunk-wise reading
+    let active = first || pre == 1;
+    let kept_old = if first { 0 } else { old_len };
+    let total = kept_old + len;
+    let st = hr::receiver_state(&f.rx);
+    if !active {
+        assert!(res.is_pending());
+        assert!(st.0 == 0);
+        kani::cover!(true, "frame without a started message ignored");
+    } else if total > max {
+        assert!(matches!(res, Poll::Ready(Ok(Some(Received::Chunks)))));
+        // everything received so far is kept for recv_chunk, in order
+        assert!(st.0 == 2 && st.2 == total && st.3 == last);
+        kani::cover!(true, "oversized message switched to chunk mode");
+    } else if last {
+        match res {
+            Poll::Ready(Ok(Some(Received::Data(data)))) => {
+                assert!(hr::data_buf_remaining(&data) == total);
+                let bytes = Vec::<u8>::from(data);
+                assert!(bytes.len() == total);
+                let mut k = 0;
+                while k < kept_old {
+                    assert!(bytes[k] == OLD[k]);
+                    k += 1;
+                }
+                let mut k = 0;
+                while k < len {
+                    assert!(bytes[kept_old + k] == NEW[k]);
+                    k += 1;
+                }
+                std::mem::forget(bytes);
+            }
+            other => {
+                std::mem::forget(other);
+                panic!("completed message expected")
+            }
+        }
+        assert!(st.0 == 0);
+        kani::cover!(true, "message completed");
+    } else {
+        assert!(res.is_pending());
+        assert!(st.0 == 1 && st.2 == total);
+        kani::cover!(true, "message continues");
+    }
+    // the frame was consumed: exactly its credit left `used` and is on its way back (or held below the threshold)
+    assert!(hc::monitor_state(&f.mon).0 == used0 - credit);
+    assert!(returned_total(&mut f) == credit);
+    tokio::model::forget_tasks();
+    std::mem::forget(f);
+}
+
+macro_rules! recv_any_step_harness {
+    ($($name:ident, $pre:expr, $first:expr, $last:expr, $len:expr, $max:expr;)*) => {$(
+        with_lean_model! {
+        /// @prop C01 C02 C11
+        /// @tier quick
+        /// @covers any
+        /// @fn chmux::receiver::Receiver::recv_any
+        /// @fn chmux::receiver::DataBuf::try_push
+        /// @fn chmux::credit::ChannelCreditReturner::start_return
+        /// @bounds one frame arriving in a given assembly state; concrete per harness: state (nothing buffered / one 2-byte chunk buffered), first/last flags, frame length 0..=3, max_data_size; symbolic: the frame's credit, the accounted use and the buffer limit (full u32)
+        /// @outside more than one buffered chunk; port-request frames and the chunk-streaming state (see the recv_chunk harnesses)
+        /// one step of reassembly: `first` discards a partially received predecessor and starts a new message, a frame without a started message is ignored, `last` completes the message with exactly the buffered bytes followed by the frame's bytes (length reported through the Buf API included), a message above max_data_size is handed over for chunk-wise reading with everything received so far; the frame's credit is returned exactly once
+        #[kani::proof]
+        #[kani::unwind(3)]
+        #[kani::stub(alloc::fmt::format, empty_format)]
+        #[kani::stub(<crate::chmux::PortNumber as std::ops::Drop>::drop, noop_port_number_drop)]
+        fn $name() {
+            recv_any_step_case($pre, $first, $last, $len, $max);
+        }
+        }
+    )*};
+}
+
+recv_any_step_harness! {
+    c01_recv_step_idle_first_last, 0, true, true, 3, 8;
+    c01_recv_step_idle_first_last_empty, 0, true, true, 0, 8;
+    c01_recv_step_idle_first, 0, true, false, 2, 8;
+    c01_recv_step_idle_stray, 0, false, true, 2, 8;
+    c01_recv_step_cont_last, 1, false, true, 3, 8;
+    c01_recv_step_cont_more, 1, false, false, 1, 8;
+    c01_recv_step_restart_last, 1, true, true, 2, 3;
+    c01_recv_step_restart_more, 1, true, false, 3, 8;
+    c01_recv_step_cont_exceeds, 1, false, true, 3, 4;
+    c01_recv_step_cont_exact_fit, 1, false, true, 2, 4;
+    c01_recv_step_idle_exceeds, 0, true, false, 3, 2;
+}
